@@ -340,7 +340,8 @@ VARIANTS += [
     ("C16-quarter-first-month", "C16", DT, "return self.on(self.year, self.quarter * 3 - 2, 1).first_of(", "return self.on(self.year, self.quarter * 3 - 1, 1).first_of(", "CLONE.shape"),
     ("C16-last-year-month", "C16", DATE, "return self.set(month=MONTHS_PER_YEAR).last_of(\"month\", day_of_week)", "return self.set(month=11).last_of(\"month\", day_of_week)", "CLONE.shape"),
     ("C16-nth-result-month", "C16", DATE, "        return self.set(self.year, dt.month, dt.day)\n\n    def average", "        return self.set(self.year, self.month, dt.day)\n\n    def average", "CLONE.shape"),
-    ("C16-nth-midnight", "C16", DT, "            return self.set(day=dt.day).start_of(\"day\")", "            return self.set(day=dt.day)", "CLONE.midnight"),
+    # since aa95346 nth_of() itself passes the helper's result through start_of('day'): behaviour-preserving (the calendar tabulation says so)
+    ("C16-nth-midnight-benign", "C16", DT, "            return self.set(day=dt.day).start_of(\"day\")", "            return self.set(day=dt.day)", None),
     ("C16-nth-error", "C16", DT, "        if not dt:\n            raise PendulumException(", "        if dt:\n            raise PendulumException(", "DISPATCH.nth-error"),
     ("C16-dispatch-units", "C16", DATE, "        if unit not in [\"month\", \"quarter\", \"year\"]:\n            raise ValueError(f'Invalid unit \"{unit}\" for first_of()')\n\n        return cast(\"Self\", getattr(self, f\"_last_of_{unit}\")(day_of_week))", "        if unit not in [\"month\", \"year\"]:\n            raise ValueError(f'Invalid unit \"{unit}\" for first_of()')\n\n        return cast(\"Self\", getattr(self, f\"_last_of_{unit}\")(day_of_week))", "DISPATCH.units"),
 ]
@@ -546,7 +547,9 @@ if _os.path.isdir(_SEED_ROOT):
         _mf = _os.path.join(_SEED_ROOT, _sid, "meta.json")
         if _os.path.exists(_mf):
             _m = _json.load(open(_mf))
-            VARIANTS.append((f"{_m['property']}-seed-{_sid}", _m["property"], "PATCH", f"seeded/{_sid}/patch.diff", None, "VIOLATION property=" + _m["property"]))
+            # a seed whose change stopped being a defect after a later fix of /repo (`superseded` says which) must now stay quiet
+            VARIANTS.append((f"{_m['property']}-seed-{_sid}", _m["property"], "PATCH", f"seeded/{_sid}/patch.diff", None,
+                             None if _m.get("superseded") else "VIOLATION property=" + _m["property"]))
 
 TZI = "src/pendulum/tz/__init__.py"
 VARIANTS += [
